@@ -164,6 +164,10 @@ func (a *c20Analysis) tables() *c20Tables {
 			name := a.fieldName(e.field)
 			init := e.initAcc || f.ctorOnly
 			locks := f.entryMust | e.st.must
+			if e.write {
+				// a read lock does not protect a write
+				locks = f.entryMustW | e.st.mustW
+			}
 			key := fmt.Sprintf("%s|%v|%d|%v|%v", name, e.write, locks, init, e.addr)
 			r := agg[key]
 			if r == nil {
